@@ -72,6 +72,42 @@ def parse_print(text):
     return lines
 
 
+def parse_table(text):
+    """left column (script still to be executed) of the script|stack table printed at start-up and after step / rewind"""
+    rows = None
+    for ln in text.split('\n'):
+        if rows is None:
+            if re.match(r'^-+\+-+\s*$', ln):
+                rows = []
+            continue
+        if '|' not in ln:
+            break
+        left = ln.rsplit('|', 1)[0].strip()
+        if left:
+            rows.append(left)
+    return rows
+
+
+def table_matches(rows, exp, pos):
+    """the table lists what is still to be executed: the operations (and commitment steps) from the current one on, in order;
+    section header lines are presentation and ignored"""
+    got = [r for r in rows if not r.startswith('<<<')]
+    want = [e for e in exp[pos:] if e[0] != 'header']
+    if len(got) != len(want):
+        return 'table-length-differs (%d rows, %d operations pending)' % (len(got), len(want))
+    for r, e in zip(got, want):
+        if e[0] == 'op':
+            if r.endswith('...') and e[2] is not None and len(r) >= 40:
+                # the table abbreviates long pushes to its column width (the `print` listing shows them in full): the shown part must be a prefix
+                if not e[2].hex().startswith(r[:-3]):
+                    return 'table-row-is-not-a-prefix-of-the-decoding: %s' % r[:60]
+            elif not op_text_ok(r, e[1], e[2]):
+                return 'table-row-is-not-the-decoding: %s' % r[:60]
+        elif not r.lower().startswith(('branch', 'tweak', 'checktaptweak')):
+            return 'table-row-is-not-a-commitment-step: %s' % r[:60]
+    return None
+
+
 def build_sessions(rng, n):
     S = []
     for i in range(n):
@@ -264,6 +300,15 @@ def worker(job):
             if bad:
                 part.violation('%s:%s' % (bad, 'tapscript' if sess.get('commit') else sess['kind'] if sess['kind'] in ('plain', 'p2sh-plain') else 'spend'), wit)
                 continue
+            # --- the script|stack table printed at start-up
+            t0 = parse_table(segs[0]['out'])
+            if t0 is not None:
+                tb = table_matches(t0, exp, 0)
+                if tb:
+                    wit['detail'] = tb
+                    part.violation('table-differs-from-pending-operations:%s' % ('tapscript' if sess.get('commit') else sess['kind'] if sess['kind'] in ('plain', 'p2sh-plain') else 'spend'), wit)
+                    continue
+                part.count('tables_checked', 'n')
             # --- marker vs. the operation actually executed
             pos = 0            # reference position = number of entries executed
             seg_i = 1
@@ -317,6 +362,13 @@ def worker(job):
                         pos -= 1
                     # a refused rewind leaves the position unchanged
                 prev_dump = d
+                tbl = parse_table(seg_cmd['out'])
+                if tbl is not None and not (fail_at is not None and pos == fail_at):
+                    tb = table_matches(tbl, exp, pos)
+                    if tb:
+                        marker_bad = ('table-differs-from-pending-operations', pos, tb)
+                        break
+                    part.count('tables_checked', 'n')
                 lst2 = parse_print(seg_prn['out'])
                 marked = [j for j, l in enumerate(lst2) if l['marked']]
                 want = [pos] if pos < total else []
